@@ -264,7 +264,54 @@ func (r *c18Restless) String() string {
 	return s
 }
 
+// c18Growing: a cell showing a buffer that grows (and shrinks): after every change the cell is asked to update, and
+// its metrics must be those of the text it then reports - whatever relation the new text has to the old one (an
+// extension of it, a leading part of it, the same text, something else).
+type c18Buffer struct{ b []byte }
+
+func (g *c18Buffer) String() string { return string(g.b) }
+
+func c18Growing(c *Ctx, s string) {
+	base := s
+	if h := gen.Hash64("c18 growing", s); h%2 == 0 {
+		for len(base) < 70+int(h%60) {
+			base += s + "."
+		}
+	}
+	buf := &c18Buffer{b: []byte(base)}
+	cell := tabular.NewCell(buf)
+	steps := []string{"+x", "+\nmore", "+ tail \u4e16\u754c", "+", "+\n", "+9999999999", "-3", "+y\nz", "-1", "=", "+\u0301"}
+	k := int(gen.Hash64("c18 growing steps", s) % uint64(len(steps)))
+	for n := 0; n < 5; n++ {
+		st := steps[(k+n*3)%len(steps)]
+		switch st[0] {
+		case '+':
+			buf.b = append(buf.b, st[1:]...)
+		case '-':
+			if cut := int(st[1] - '0'); len(buf.b) >= cut {
+				buf.b = buf.b[:len(buf.b)-cut]
+			}
+		}
+		cell.Update()
+		c.Rec.Count("cells_updated_after_their_text_was_extended_or_cut", 1)
+		text := cell.String()
+		desc := map[string]interface{}{"first_text": gen.Q(base), "change": st, "text_now": gen.Q(text)}
+		if h, l := cell.Height(), len(cell.Lines()); h != l {
+			c.Rec.Violate("Cell.Height!=len(Lines):after-the-text-was-extended", fmt.Sprintf("cell of a growing buffer, after change %q and Update: text %q, Height()=%d but len(Lines())=%d", st, text, h, l), desc)
+			return
+		}
+		if w, want := cell.TerminalCellWidth(), length.LongestLineCells(text); w != want {
+			c.Rec.Violate("Cell.Width!=LongestLineCells:after-the-text-was-extended", fmt.Sprintf("cell of a growing buffer, after change %q and Update: text %q, TerminalCellWidth()=%d but LongestLineCells(text)=%d", st, text, w, want), desc)
+			return
+		}
+		if text != string(buf.b) {
+			c.Rec.Count("cells_with_unexpected_text", 1)
+		}
+	}
+}
+
 func c18Cells(c *Ctx, s string) {
+	c18Growing(c, s)
 	inner := tabular.NewCell(s)
 	innerP := tabular.NewCell(s)
 	kinds := []struct {
